@@ -188,6 +188,19 @@ CLAIMED["C20"] = dict(
     ref="DESIGN.md section 2 (C20)",
     technique="TLA+ definition of effective options + TLC enumeration of the option space + TLC validation of recorded three-route outcomes")
 
+CLAIMED["C04"] = dict(
+    text="StlSem.tla holds one semantic action per documented hex macro (memory, logic, inc/dec/neg/abs/sign_extend/count_bits, add/sub with their "
+         "shifted and constant forms and the single-hex carry forms, shifts, if/cmp/scmp/sign/min/max/if_flags, mul/mul10/add_mul, div/idiv), transcribed "
+         "from the documentation line above each def, on unbounded integers with the frame condition and the carries. The arena assembles ONE program "
+         "with a block per macro instance (sizes 1..17) whose dispatch jump the harness device patches; behaviours - ALL ordered pairs of macro "
+         "instances plus seeded longer sequences on shared variables, operands overwritten by the environment - run at native speed; TLC (Trace_Stl) "
+         "computes the prescribed state after every step and the harness compares every variable (all 18 digits: frame condition), the branch taken, "
+         "the carries, the library's hidden cells (back at rest) and that variable ops are left clean.",
+    note="Trusted: StlSem.tla as transcription of the documentation. Operand values are seeded samples with boundary bias (not all 16^n values); "
+         "operands of one call are distinct variables; w=32/64 on the native engine (thorough adds the fast and featured engines).",
+    ref="DESIGN.md section 2 (C04-C09) and 1.5 (arena)",
+    technique="TLA+ per-macro semantics evaluated by TLC as oracle for arena behaviours (device-driven replay of macro sequences in the real assembled library)")
+
 NOT_YET = {}
 
 
